@@ -26,6 +26,57 @@ func runC20(c *Ctx) {
 	c20Any(c)
 	c20SameMux(c)
 	c13WritePath(c, "C20")
+	c20AnyOutermost(c)
+}
+
+// c20AnyOutermost implements C20.any-outermost: the chain is built inside out (each new handler's Next is the previous
+// head), so the handler linked LAST is asked FIRST. The ANY refusal has to be asked before any handler that answers
+// queries itself (whoami, the DoT TLSA responder): linked before them (round-5 seed c20j moved it "right in front of
+// the database"), an ANY query for a name those handlers own gets their answer instead of the one HINFO record.
+func c20AnyOutermost(c *Ctx) {
+	rule := "C20.any-outermost"
+	c.Rule(rule, "A2 ordering in (*Server).Start: no store that links an answering front handler (whoami.Handler.Next, dotTLSAHandler.Next) is reachable from the store that links the ANY handler (anyHandler.Next) within the set-up code that is not inside the per-address loop")
+	start := c.Func("fbserver", "(*Server).Start")
+	c.Examined(start)
+	var anyNext *types.Var
+	answering := map[*types.Var]string{}
+	for _, fh := range frontHandlers(c) {
+		switch fh.Name {
+		case "fbserver.anyHandler":
+			anyNext = fh.Next
+		case "whoami.Handler", "fbserver.dotTLSAHandler":
+			answering[fh.Next] = fh.Name
+		}
+	}
+	anyStores := storesToField(start, anyNext)
+	var bad []string
+	n := 0
+	for f, name := range answering {
+		for _, st := range storesToField(start, f) {
+			n++
+			for _, a := range anyStores {
+				if a.Block() == st.Block() {
+					// same block: order of the instructions
+					ia, is := -1, -1
+					for i, in := range a.Block().Instrs {
+						if in == ssa.Instruction(a) {
+							ia = i
+						}
+						if in == ssa.Instruction(st) {
+							is = i
+						}
+					}
+					if ia < is {
+						bad = append(bad, name)
+					}
+				} else if reachable(a.Block(), nil)[st.Block()] && !reachable(st.Block(), nil)[a.Block()] {
+					bad = append(bad, name)
+				}
+			}
+		}
+	}
+	sort.Strings(bad)
+	c.Check(rule, fnName(start)+"|any-linked-after-answering-handlers", len(bad) == 0 && len(anyStores) > 0 && n > 0, start.Pos(), fmt.Sprintf("answering handlers linked after (i.e. asked before) the ANY refusal: %v", bad))
 }
 
 // c20Guard: the question-count guard (shared with C13.question).
